@@ -534,4 +534,4 @@ def r09_7(ctx):
 
 
 def rules():
-    return [("R09.7", r09_7, 4), ("R09.6", r09_6, 6), ("R09.1", r09_1, 14), ("R09.1b", r09_1b, 3), ("R09.2", r09_2, 6), ("R09.3", r09_3, 8), ("R09.4", r09_4, 5), ("R09.5", r09_5, 10)]
+    return [("R09.7", r09_7, 2), ("R09.6", r09_6, 6), ("R09.1", r09_1, 14), ("R09.1b", r09_1b, 3), ("R09.2", r09_2, 6), ("R09.3", r09_3, 8), ("R09.4", r09_4, 5), ("R09.5", r09_5, 10)]
